@@ -42,6 +42,8 @@ def main():
     wt = '/tmp/seedcheck_wt_%d' % os.getpid()
     result = {'property': prop, 'variant': variant, 'summary': meta.get('summary'), 'needs': meta.get('needs'),
               'files': meta.get('files'), 'ran': []}
+    if meta.get('rebased'):
+        result['rebased'] = meta['rebased']
     rc, out = sh('git -C /repo worktree add -q %s HEAD' % wt)
     try:
         env = dict(os.environ, PYTHONPATH=wt, PYTHONDONTWRITEBYTECODE='1')
